@@ -3,9 +3,11 @@
 package main
 
 import (
+	"context"
 	"fmt"
 	"net"
 	"os"
+	"sync"
 	"sync/atomic"
 	"syscall"
 	"time"
@@ -13,6 +15,7 @@ import (
 	"golang.org/x/sys/unix"
 
 	gnet "github.com/panjf2000/gnet/v2"
+	"github.com/panjf2000/gnet/v2/pkg/vsys"
 	"github.com/panjf2000/gnet/v2/zzverif/vlib"
 )
 
@@ -123,6 +126,8 @@ func runC15Case(c cfg, seed uint64, keys map[string]struct{}) (evals int64) {
 		}
 		keys[fmt.Sprintf("engine|rr|N=%d|%s", N, c.Net)] = struct{}{}
 	case gnet.LeastConnections:
+		failedRegs := 0
+		defer func() { res.Obs("c15_lc_failed_registrations", int64(failedRegs)) }()
 		steps := 12 * N
 		if steps > 120 {
 			steps = 120
@@ -145,6 +150,26 @@ func runC15Case(c cfg, seed uint64, keys map[string]struct{}) (evals int64) {
 				if n < min {
 					min = n
 				}
+			}
+			if vsys.Shimmed && i%7 == 3 && c.Net == "tcp" {
+				// a registration that fails (epoll_ctl ADD) must leave no trace in the counts the policy balances on:
+				// the connection is closed again without ever being opened, and the next accepts still go to a least
+				// loaded loop
+				vsys.PlanAdd(&vsys.Rule{Call: vsys.CEpollAdd, FD: -1, Class: "accepted", Index: 1, Action: vsys.AErrno, Errno: unix.ENOMEM, Once: true})
+				before := mon.opened.Load()
+				if fc, err := net.DialTimeout(life.dialNet, life.dialAddr, 5*time.Second); err == nil {
+					_ = fc.SetReadDeadline(time.Now().Add(3 * time.Second))
+					_, rerr := fc.Read(make([]byte, 1)) // the server closes it
+					_ = fc.Close()
+					if mon.opened.Load() != before {
+						res.Inconc("c15 lc: the injected registration failure did not hit the new connection (%v)", rerr)
+					} else {
+						failedRegs++
+						keys[fmt.Sprintf("engine|lc|failed-registration|N=%d", N)] = struct{}{}
+					}
+				}
+				vsys.PlanClear()
+				continue
 			}
 			conn, cs := openOne(nil)
 			if cs == nil {
@@ -195,8 +220,105 @@ func runC15Case(c cfg, seed uint64, keys map[string]struct{}) (evals int64) {
 				}
 			}
 		}
+		if c.Net == "tcp" {
+			evals += c15RegisterHash(c, life, mon, N, r, keys)
+		}
 		keys[fmt.Sprintf("engine|hash|N=%d|%s", N, c.Net)] = struct{}{}
 	}
 	_ = polName
 	return evals
+}
+
+// c15RegisterHash: connections brought in through Engine.Register are balanced on their remote address like
+// accepted ones - whatever else the context carries. The harness owns a listener X; every connection to it has
+// the remote address X, so all of them belong on one loop.
+func c15RegisterHash(c cfg, life *engineLife, mon *monitor, N int, r *vlib.Rand, keys map[string]struct{}) (evals int64) {
+	for round := 0; round < 4; round++ {
+		ln, err := net.Listen("tcp", "127.0.0.1:0")
+		if err != nil {
+			res.Inconc("c15 hash/register: listen: %v", err)
+			return
+		}
+		var accepted []net.Conn
+		var amu sync.Mutex
+		go func() {
+			for {
+				ac, err := ln.Accept()
+				if err != nil {
+					return
+				}
+				amu.Lock()
+				accepted = append(accepted, ac)
+				amu.Unlock()
+			}
+		}()
+		X := ln.Addr()
+		loops := map[int][]string{}
+		await := func(what string, ch <-chan gnet.RegisteredResult, err error) {
+			if err != nil {
+				res.Inconc("c15 hash/register %s: %v", what, err)
+				return
+			}
+			select {
+			case rr := <-ch:
+				if rr.Err != nil || rr.Conn == nil {
+					res.Inconc("c15 hash/register %s: result %v", what, rr.Err)
+					return
+				}
+				idx := gnet.VerifLoopIndex(rr.Conn)
+				loops[idx] = append(loops[idx], what)
+				evals++
+				if cs, ok := rr.Conn.Context().(*connState); ok && cs != nil {
+					cs.armedLocal.Store(true)
+					cs.armedRemote.Store(true)
+				}
+				_ = rr.Conn.Close()
+			case <-time.After(5 * time.Second):
+				res.Inconc("c15 hash/register %s: no result within 5s", what)
+			}
+		}
+		dial := func() net.Conn {
+			nc, err := net.DialTimeout("tcp", X.String(), 3*time.Second)
+			if err != nil {
+				return nil
+			}
+			return nc
+		}
+		// 1. the connection alone
+		if nc := dial(); nc != nil {
+			ch, err := life.eng.Register(gnet.NewNetConnContext(context.Background(), nc))
+			await("conn", ch, err)
+		}
+		// 2. the connection together with unrelated addresses in the same context (either nesting order)
+		for k := 0; k < 6; k++ {
+			decoy := &net.TCPAddr{IP: net.IPv4(10, byte(r.Intn(250)), byte(r.Intn(250)), byte(1+r.Intn(250))), Port: 1 + r.Intn(65000)}
+			nc := dial()
+			if nc == nil {
+				continue
+			}
+			var ctx context.Context
+			if k%2 == 0 {
+				ctx = gnet.NewNetConnContext(gnet.NewNetAddrContext(context.Background(), decoy), nc)
+			} else {
+				ctx = gnet.NewNetAddrContext(gnet.NewNetConnContext(context.Background(), nc), decoy)
+			}
+			ch, err := life.eng.Register(ctx)
+			await(fmt.Sprintf("conn+addr(%s)", decoy), ch, err)
+		}
+		// 3. the address alone (the engine dials X itself)
+		ch, err := life.eng.Register(gnet.NewNetAddrContext(context.Background(), X))
+		await("addr", ch, err)
+		if len(loops) > 1 {
+			res.Violate("C15 SourceAddrHash served the same remote address on different loops (Register)", fmt.Sprintf("N=%d: connections to %s registered through Engine.Register were spread over loops %v", N, X, loops), map[string]any{"config": c.String()})
+		}
+		keys[fmt.Sprintf("engine|hash|register|N=%d", N)] = struct{}{}
+		_ = ln.Close()
+		time.Sleep(2 * time.Millisecond)
+		amu.Lock()
+		for _, ac := range accepted {
+			_ = ac.Close()
+		}
+		amu.Unlock()
+	}
+	return
 }
